@@ -161,6 +161,25 @@ class Fn:
         self.parent = j.get('parent')
         self.name = j.get('name', '')
         self.bounds = j.get('bounds', [])
+        # Edge splitting: every edge of a switchInt gets its own pass-through block, so that "the block entered on the
+        # true / None / Ok edge" identifies that *edge* even when the original target is a join block (an `if` without else).
+        if not j.get('_split'):
+            nb = len(self.blocks)
+            for i in range(nb):
+                b = self.blocks[i]
+                if b['c']:
+                    continue
+                t = b['t']
+                if t['k'] != 'switch':
+                    continue
+                def split(tgt):
+                    if self.blocks[tgt]['t']['k'] == 'unreachable' or self.blocks[tgt]['c']:
+                        return tgt
+                    self.blocks.append({'c': False, 's': [], 't': {'k': 'goto', 't': tgt, 'l': t.get('l', 0)}, 'edge_of': i})
+                    return len(self.blocks) - 1
+                t['vals'] = [[v, split(tg)] for v, tg in t['vals']]
+                t['otherwise'] = split(t['otherwise'])
+            j['_split'] = True
         n = len(self.blocks)
         self.n = n
         self.cleanup = [b['c'] for b in self.blocks]
@@ -518,6 +537,8 @@ class Program:
     def __init__(self, path):
         with open(path) as f:
             j = json.load(f)
+        import anchors
+        self.renamed_fields = anchors.canonicalise(j)
         self.j = j
         self.nonce = j.get('nonce')
         self.crate = j.get('crate')
@@ -916,7 +937,7 @@ TRANSPARENT_CALLS = {
     'unwrap_or': 0, 'unwrap_or_default': 0, 'unwrap_or_else': 0, 'as_ptr': 0, 'must_use': 0,
     'try_into': 0, 'try_from': 0, 'as_os_str': 0, 'to_os_string': 0, 'get_ref': 0, 'get_mut': 0,
     'index': 0, 'index_mut': 0, 'into_iter': 0, 'iter': 0, 'iter_mut': 0, 'take': 0, 'replace': 0,
-    'poll': 0, 'map_or': 0, 'map': 0, 'and_then': 0, 'max': (0, 1), 'min': (0, 1), 'or': (0, 1), 'and': (0, 1),
+    'poll': 0, 'read': 0, 'write': 0, 'upgradable_read': 0, 'lock': 0, 'map_or': 0, 'map': 0, 'and_then': 0, 'max': (0, 1), 'min': (0, 1), 'or': (0, 1), 'and': (0, 1),
     'cloned': 0, 'copied': 0, 'ok': 0, 'err': 0, 'filter': 0, 'or_else': 0, 'unwrap_unchecked': 0,
 }
 # `new` is transparent only for smart-pointer-like wrappers
@@ -953,6 +974,8 @@ def is_transparent(c):
         if not any(c.path.startswith(o) for o in TRANSPARENT_NEW_OWNERS):
             return None
     if n == 'poll' and not (c.trait or '').endswith('Future'):
+        return None
+    if n in ('read', 'write', 'upgradable_read', 'lock') and not re.match(r'^(tokio::sync|async_lock|std::sync)::(RwLock|Mutex)', c.path):
         return None
     if c.decl_crate == 'pearl' and not c.trait:
         # in-crate inherent fns are never transparent by name
